@@ -12,6 +12,7 @@ THEOREMS = {
         "Dawgs.C18.Props.verify_iff_metrics_equal",
         "Dawgs.C18.Props.dump_all_graphs",
         "Dawgs.C18.Props.load_all_graphs",
+        "Dawgs.C18.Props.manifest_metrics_exact",
         "Dawgs.C18.Props.int_round_trip_current",
         "Dawgs.C18.Props.int_round_trip_current_lossy",
         "Dawgs.C18.Props.int_round_trip_fixed",
@@ -85,6 +86,49 @@ def finding_key(suite, ops, line, msg):
     return "C18:%s:%s" % (op, cls)
 
 
+# clause of the statement in properties.jsonl -> what carries it. Hypotheses common to the protocol theorems ("H"): every graph is
+# well formed (WF: distinct node ids, distinct relationship ids, endpoints inside the graph), graph names are distinct, dump batch size >= 1,
+# the codec satisfies dec(enc x) = x, the destination's node id allocator is injective and the target is empty.
+CLAUSES = {
+    "dumping any graph database and loading the dump into an empty database succeeds, for every graph in the dump":
+        "load_all_graphs (= c18_partial), one theorem composing the dump loop and the load loop over ALL databases of several graphs under H, all "
+        "shard / load-batch sizes (also 0): every target graph exactly once in manifest order (dump_all_graphs), verify-all pass, one id map per graph "
+        "whose keys are exactly that graph's node ids (GraphOk.mapKeys: nothing leaks between graphs)",
+    "same number of nodes and relationships": "load_all_graphs / load_iso (GraphOk.iso is a permutation of node and relationship lists; load_iso "
+        "states the lengths), manifest_metrics_exact (manifest counts = source counts), under H",
+    "same kinds, same property maps (JSON-equal values), same endpoints, relationship kinds and properties under the node correspondence":
+        "load_iso / GraphOk.iso under H: kinds as the sorted kind list, properties EQUAL as elements of the abstract property type, endpoints "
+        "re-pointed through the injective id map, parallel relationships as a multiset. The JSON layer under the abstract codec: integer values - "
+        "int_round_trip_fixed (every int64 exact since 6eb981c; int_round_trip_current / _lossy document the pre-fix behaviour); strings, floats, "
+        "bools, null, nested lists / maps: TIE ONLY (values of every kind are generated each run and compared textually after the round trip)",
+    "every entity exactly once (underlies all of the above)": "scan_exactly_once (all batch sizes >= 1, ids distinct; short-read and truncation cases "
+        "explicit), shard_partition (all shard sizes >= 1: concatenation = scan order, non-empty, <= ShardSize, all but last full, k*ShardSize, empty phase)",
+    "the manifest's counts, checksums and metrics describe exactly the files written": "manifest_describes_files (per file: path, phase, digest and byte "
+        "size of the file's bytes, count = records the file decodes to; distinct paths; node entries before edge entries; totals = counts) and "
+        "manifest_metrics_exact (recorded metrics = metricsOf the source graph's id-ordered streams; counts = source counts), under H. SHA-256 and byte "
+        "counts are the abstract codec's digest / size functions: that they are the real ones is TIE ONLY (suite obs18 recomputes sha256 / sizes)",
+    "verification of the loaded database against the manifest succeeds": "verify_accepts_loaded / GraphOk.verify under H (metrics invariant under the id "
+        "map and the return order: metrics_invariant)",
+    "... exactly when the graphs match": "REFUTED for the code: verify_gap + c18_full_refuted (two self loops vs a 2-cycle: equal metrics, not isomorphic; "
+        "confirmed on the real code every run). What holds: verify_iff_metrics_equal (no hypotheses): ok <=> metrics equal (counts + six histograms as "
+        "multisets), mismatch <=> collected and different, error <=> an endpoint is not a node; isomorphism => metrics equal, not conversely",
+    "all batch/shard sizes >= 1, ids with gaps, nodes without kinds, parallel edges, empty graphs": "quantified in the theorems above (Nat ids, any kinds "
+        "list, any multiset of relationships, empty node / relationship lists)",
+    "compression {none,gzip,zstd}": "TIE ONLY: the theorems are for any codec with dec(enc x) = x; that JSON lines + none/gzip/zstd is such a codec is "
+        "exercised on every generated database x all three codecs",
+    "dump -> [interrupt -> resume] -> load (the dump may be interrupted)": "C19 (resume_complete_or_refuse, completed_resume_holds_every_entity_once: the resumed directory equals the uninterrupted "
+        "one) + TIE: idump ops crash / fault the real dump at random and at every point, resume, load, compare",
+    "table positions / references do not wrap on large graphs": "T-tie no_narrow_index_types, metrics_tables_wide, ordinal_capacity_guarded (facts "
+        "re-extracted from retriever/*.go); 65537-kind-combination graph in the thorough tier only",
+    "searched only (tie)": "that the Lean transcription (Model/C18.lean) is what Dump / Load / Verify do: line diff model = implementation on every generated "
+        "case (fragment boundaries and counts, schema kinds, loaded graph in creation order, verify outcomes after mutations), the observation monitor "
+        "(recomputed sha256 / sizes / record counts, directory listing, isomorphism of the loaded graph); the three codecs; JSON text round trip of "
+        "strings / floats / bools / null / nesting; real database drivers (only the in-memory fake is exercised); scrub on (C19 covers it for resume)",
+    "named assumptions": "WF graphs with distinct names; source unchanged during the dump; empty target; injective destination id allocator; SHA-256 "
+        "collision free (digest abstract); encoding/json, gzip, zstd, crypto/sha256 correct; file system returns what was written",
+}
+
+
 def scale_note(ctx, stats):
     if stats.get("scale.beyond_16_bit"):
         return "this run dumped, loaded and verified a graph with 65537 distinct node kind combinations (relationships at references 65534/65535/65536) and required Verify to reject a re-pointed relationship"
@@ -102,6 +146,7 @@ def extra_coverage(ctx, stats):
             elif l.startswith("ok unjudged"):
                 unjudged += 1
     return {
+        "clause_map": CLAUSES,
         "scale_boundary": scale_note(ctx, stats),
         "verify_gap_confirmed_on_impl": gap,
         "verify_unjudged": unjudged,
@@ -155,17 +200,20 @@ MANIFEST = {
     "category": "proof",
     "technique": "Lean 4 proofs on an executable model of the dump/load/verify protocol (keyset scan, shard rollover, manifest, id-map re-pointing, "
                  "metrics histograms) + differential correspondence and observation monitor against the real retriever over an in-memory graph.Database",
-    "text": "Lean theorems for all databases of several well-formed graphs with distinct names (dump_all_graphs / load_all_graphs: every target graph "
-            "exactly once in the manifest's order, one id map per graph, nothing leaking between graphs), all batch/shard sizes >= 1, any codec with "
-            "dec(enc x)=x and any injective destination id allocator: the keyset scan yields every entity exactly once in id order (short-read and truncation cases explicit), shards partition the "
-            "scan (non-empty, <= ShardSize, all but the last full, k*ShardSize gives exactly k files, empty phase gives none), the manifest describes "
-            "exactly the files written, load(dump g) is isomorphic to g under the loader's id map (kinds, properties, endpoints, parallel edges as a "
-            "multiset). Verify clause in one sentence: Verify accepts the loaded graphs and, for any database, succeeds exactly when its metrics equal the "
-            "manifest's (counts and the six histograms as multisets, verify_iff_metrics_equal), which isomorphism implies but which does NOT imply "
-            "isomorphism - 'exactly when the graphs match' is the refuted part of C18_full (verify_gap, c18_full_refuted). The model answers are compared line by line with the real "
-            "Dump->Load->Verify on generated databases x codecs x boundary sizes every run; a Lean monitor judges raw observations (recomputed "
-            "sha256/byte counts/record counts, directory listing, loaded graph).",
-    "note": "Partial clause: 'verification succeeds exactly when the graphs match' is false for the code (metrics fingerprint): refuted in Lean "
-            "(c18_full_refuted, witness: two self loops vs a 2-cycle) and confirmed on the real code each run. Fixed finding: int64 properties beyond "
-            "2^53 were rounded by Load (float64 decoding); Load now decodes with UseNumber (int_round_trip_fixed). Trusted: codecs, encoding/json, SHA-256, the fake database.",
+    "text": "Clause map in coverage.clause_map. Proved in Lean for ALL databases of several well-formed graphs with distinct names, all dump batch sizes >= 1, "
+            "all shard and load-batch sizes, any codec with dec(enc x)=x and any injective destination id allocator (one end-to-end theorem, load_all_graphs = "
+            "c18_partial): the keyset scan yields every entity exactly once in id order, shards partition it, the manifest's per-file counts / sizes / "
+            "digests and its metrics describe exactly what was written, every target graph is dumped and loaded exactly once with its own id map, "
+            "load(dump g) is isomorphic to g (kinds, properties, endpoints, parallel edges as a multiset), and Verify accepts the loaded graphs. Verify "
+            "clause in one sentence: Verify succeeds exactly when the database's metrics equal the manifest's (counts and six histograms as multisets, "
+            "verify_iff_metrics_equal), which isomorphism implies but which does NOT imply isomorphism - 'exactly when the graphs match' is the refuted "
+            "part of C18_full (verify_gap, c18_full_refuted). Integer property values: every int64 survives (int_round_trip_fixed). Tie every run: model "
+            "= real Dump->Load->Verify line by line on generated databases x three codecs x boundary sizes, also for interrupted+resumed dumps; a Lean "
+            "monitor judges recomputed sha256 / sizes / record counts, listings and the loaded graph; width facts of the metrics tables re-extracted.",
+    "note": "Partial clause: 'verification succeeds exactly when the graphs match' is false for the code (Verify compares a metrics fingerprint): "
+            "refuted in Lean (c18_full_refuted, verify_gap: two self loops vs a 2-cycle) and confirmed on the real code every run; C18_partial is C18_full "
+            "with that clause replaced by verify_iff_metrics_equal. Tie only (not proved): that JSON lines + none/gzip/zstd is a codec with dec(enc x)=x, the JSON round trip of strings / floats / bools / "
+            "null / nested values, SHA-256, the real drivers (in-memory fake only). Scale boundary (65536 kind combinations): width facts in quick, a "
+            "65537-combination graph in thorough. No open finding: the int64-beyond-2^53 rounding of Load was fixed in /repo 6eb981c (status fixed in "
+            "known_findings.json; big ints are part of every run).",
 }
